@@ -262,6 +262,8 @@ def render_query(q, lang, rnd=None, header_a=None, header_b=None, join_table='b'
         for idx, rhs in q['assigns']:
             assigns.append('%s = %s' % (sp.field('a', idx) if not sp.coin(0.0) else 'a%d' % (idx + 1), render_top(rhs, lang, sp)))
         head += sp.sp() + ', '.join(assigns)
+        if q.get('top') is not None:
+            clauses.append(sp.kw('LIMIT') + sp.sp() + str(q['top']))      # parsed and IGNORED by UPDATE (every record is emitted)
     else:
         head = sp.kw('SELECT')
         use_limit = q.get('top') is not None and (sp.coin(0.5))
